@@ -8,7 +8,7 @@ KINDS = ["S(Q)", "Q[S(Q)-1]", "FK(Q)", "DCS(Q)"]
 def mk_dataset(rng, kind=None, maxn=40):
     kind = kind or str(rng.choice(KINDS))
     n = int(rng.integers(3, maxn))
-    q0 = int(rng.integers(5, 300)) / 100
+    q0 = int(rng.integers(5, 300)) / 100 if rng.random() > 0.1 else 0.0   # 10%: the first bin is Q = 0
     dq = float(rng.choice([0.01, 0.02, 0.05]))
     q = np.round(q0 + np.arange(n) * dq, 2)
     if rng.random() < 0.3:
